@@ -82,13 +82,27 @@ func runC03Probe(cases []string, out *bufio.Writer, _ []string) {
 	log.BufferCap.Store(10 * 1024)
 }
 
+type c03TimeKey struct{}
+
+// c03Time is the time event (g,i) is stamped with: seconds, milliseconds and zone all differ between goroutines and between consecutive events.
+func c03Time(g, i int) time.Time {
+	loc := time.FixedZone("", (g%5-2)*1800)
+	return time.Date(2025, 6, 1, 0, 0, 0, 0, time.UTC).Add(time.Duration(g*7919+i*613) * time.Millisecond).In(loc)
+}
+
 // Concurrent runs. Case: "<sink console|file|rolling> <layout text|json> <goroutines> <eventsPerGoroutine> <bufferCap e.g. 4KB> <sizeLo> <sizeHi> <chunk> [<ctx 0|1>]"
 // ctx=1: a FieldsFromContext hook hands every call the SAME slice of context fields, with spare capacity (request-scoped fields kept in one place).
 // Observation: "<writes> <lines> <bad>" where bad lists lines that are not byte-identical to their event formatted alone / duplicates / missing
 func runC03(cases []string, out *bufio.Writer, _ []string) {
 	log.RegisterTimeRotation("1s", log.TimeRotation{Interval: time.Second})
 	tag := log.RegisterTag("_c03_probe")
-	log.TimeNow = func(context.Context) time.Time { return time.Date(2025, 6, 1, 0, 0, 0, 0, time.UTC) }
+	// every event carries its own time (through the TimeNow hook): different seconds, milliseconds and zones among the events in flight together
+	log.TimeNow = func(ctx context.Context) time.Time {
+		if t, ok := ctx.Value(c03TimeKey{}).(time.Time); ok {
+			return t
+		}
+		return time.Date(2025, 6, 1, 0, 0, 0, 0, time.UTC)
+	}
 	defer func() { log.TimeNow = nil }()
 	base, _ := os.MkdirTemp("/var/tmp", "verif-c03-")
 	defer os.RemoveAll(base)
@@ -135,7 +149,7 @@ func runC03(cases []string, out *bufio.Writer, _ []string) {
 			go func(g int) {
 				defer wg.Done()
 				for i := 0; i < ne; i++ {
-					log.Info(ctx, tag, c03Fields(g, i, size(g, i))...)
+					log.Info(context.WithValue(ctx, c03TimeKey{}, c03Time(g, i)), tag, c03Fields(g, i, size(g, i))...)
 					if sink == "rolling" && i%8 == 7 { // stretch the run over at least one real rotation boundary (1 s interval)
 						time.Sleep(time.Duration(1300*8/ne) * time.Millisecond)
 					}
@@ -165,7 +179,7 @@ func runC03(cases []string, out *bufio.Writer, _ []string) {
 		want := map[string]int{}
 		for g := 0; g < ng; g++ {
 			for i := 0; i < ne; i++ {
-				ev := &log.Event{Level: log.InfoLevel, Time: time.Date(2025, 6, 1, 0, 0, 0, 0, time.UTC), Tag: "_c03_probe",
+				ev := &log.Event{Level: log.InfoLevel, Time: c03Time(g, i), Tag: "_c03_probe",
 					Fields: c03Fields(g, i, size(g, i))}
 				if withCtx {
 					ev.CtxFields = []log.Field{log.String("req", "r-1"), log.Int("tenant", 42)}
